@@ -796,7 +796,7 @@ Fixpoint elems_f (E : env) (p1 : prim) (jctx : ctx) (k : chk) (l : list pv) : ch
   | [] => k
   | value :: r =>
     andthen (inst_chk E p1 jctx value)
-      (if check_type_of_value value (Some p1) p1 then elems_f E p1 jctx k r else fail1 KArrayElem jctx)
+      (if check_type_of_value E value (Some p1) p1 then elems_f E p1 jctx k r else fail1 KArrayElem jctx)
   end.
 
 Lemma check_attr_type_array_eq : forall E jctx ictx def id p1 len vs,
@@ -822,7 +822,7 @@ Lemma andthen_ok_true_l : forall b, andthen ok_true b = b.
 Proof. intro b. unfold andthen, ok_true. destruct b as [[y e2]| |k|]; reflexivity. Qed.
 
 Lemma elems_f_ok : forall E p1 jctx k vs,
-  (forall value, In value vs -> inst_chk E p1 jctx value = ok_true /\ check_type_of_value value (Some p1) p1 = true) ->
+  (forall value, In value vs -> inst_chk E p1 jctx value = ok_true /\ check_type_of_value E value (Some p1) p1 = true) ->
   elems_f E p1 jctx k vs = k.
 Proof.
   intros E p1 jctx k vs. induction vs as [|value r IH]; intro H; [reflexivity|]. cbn [elems_f].
